@@ -26,8 +26,8 @@ pub fn gen_case(run_seed: u64, tier: Tier) -> SerCase {
     let mut rng = stream(run_seed, "workload");
     let mut frng = stream(run_seed, "faults");
     let mut spec = gen_spec(&mut rng, tier);
-    // one run in 40: a bit structure shaped after the select inventories (block / subblock / span boundaries)
-    if rng.chance(1, 40) {
+    // one run in 25: a bit structure shaped after the select inventories (block / subblock / span boundaries)
+    if rng.chance(1, 25) {
         use crate::ds::Flat;
         spec = Spec::Bits {
             kind: *rng.pick(&[Flat::DArray, Flat::DArray0, Flat::DArray, Flat::DArray0, Flat::RSNarrow, Flat::RSWide]),
